@@ -445,7 +445,7 @@ impl Engine for DetSim {
     }
 
     fn scripted(&self, _property: &str, _thorough: bool) -> u64 {
-        2
+        4
     }
 
     fn generate(&self, run_seed: u64, index: u64, _property: &str, _thorough: bool) -> Value {
@@ -469,6 +469,34 @@ impl Engine for DetSim {
                     ("FontFace".into(), ValSpec::G { ty: "Font".into(), s: 4 }),
                 ],
                 children: vec![],
+            },
+            // Scale: more than 256 classes (type ids beyond one byte), and more
+            // than a thousand instances of one class with Ref edges between them.
+            2 => NodeSpec {
+                class: "Folder".into(),
+                name: "many-classes".into(),
+                props: vec![],
+                children: (0..300)
+                    .map(|i| NodeSpec {
+                        class: format!("VerifClass{:03}", (i * 7) % 300),
+                        name: format!("k{}", i),
+                        props: vec![("Value".into(), ValSpec::I32(i)), ("Link".into(), ValSpec::Ref(RefT::Node(((i * 13) % 300 + 1) as u32)))],
+                        children: vec![],
+                    })
+                    .collect(),
+            },
+            3 => NodeSpec {
+                class: "Model".into(),
+                name: "many-instances".into(),
+                props: vec![],
+                children: (0..1200)
+                    .map(|i| NodeSpec {
+                        class: "ObjectValue".into(),
+                        name: format!("o{}", i),
+                        props: if i % 3 == 0 { vec![] } else { vec![("Value".into(), ValSpec::Ref(RefT::Node(((i * 31) % 1200 + 1) as u32)))] },
+                        children: vec![],
+                    })
+                    .collect(),
             },
             _ => self.gen_tree(&mut r),
         };
